@@ -19,6 +19,10 @@ def run(ctx, res):
     P = ctx.P
     PI.valstack_writers(P, res)
     reach, inv = PI.run(ctx, res, LAYERS, floor_fns=470, floor_sites=310)
+    # USED-FLAG (shared with C03): every `pop_value().expect(..)` of the evaluator assumes that each operand pushed exactly
+    # one value; an operand pushes one iff its `value_is_used` flag is true, and the parser's value-usage pass sets it
+    from . import c03 as _c03
+    _c03.used_flag_recurse(ctx.shape, res)
     # BREAK-VALUE: `break` supplies the loop's Unit exactly when the loop expression's value is used. An
     # unconditional push leaves a stray value on the frame's value stack, where an enclosing `for` keeps its
     # index and iterated value by position (-> `unreachable!("for loop index ...")`); no push at all starves
